@@ -240,7 +240,8 @@ CHECKS["C19"] = dict(
           "hypothesis on the tree any more since the repair a088161; the shipped clean-up-only-on-growth order is kept as `updateFeatureShipped` with its "
           "counterexample); the imputer changes only requested features and takes each value "
           "from a point in the routed leaf's reservoir or the fall-back. River's trees are an oracle recorded from the real objects; hypotheses and "
-          "clauses are monitored after every update/imputation."),
+          "clauses are monitored after every update/imputation. Additionally (soft tie) _update_data_reservoirs / _delete_outdated_reservoirs are "
+          "translated statement by statement on every run and Props/GenTree.lean proves the generated update equal to the model's updateFeature."),
     design_ref="DESIGN.md section 6, C19", note=TRUST_H + " river's Hoeffding trees (learn_one, routing, leaf enumeration) are an oracle: monitored, not proved.",
     technique="Lean 4 theorems over oracle-parametrised model + recorded-oracle correspondence + monitored hypotheses",
 )
